@@ -48,6 +48,8 @@ void explore02(Options const& o, std::vector<Shim*> const& shims, std::vector<Sh
   rec.note("alphabet", "fixed*fixed: S^2, |S|=" + std::to_string(S.size()) + ", operators * and *=; fixed*n, n*fixed, fixed*=n: a in S' (|S'|=" + std::to_string(Sa.size())
            + ") x every value of the 8- and 16-bit types, S-shaped + boundary-window values of the 32/64-bit types");
   C02 c(rec);
+  std::vector<i64> Dg = D_set(th ? 2 : 1);
+  rec.note("alphabet.digit_patterns", "D^2, |D|=" + std::to_string(Dg.size()) + ": words whose 16-bit and 32-bit digits are drawn from {0,1,2,half-1,half,half+1,max-1,max,...}, both signs");
   std::vector<std::vector<u64>> tv(T_CODES);
   for( int t : INT_TYPES ) tv[t] = int_type_values(t, th ? 6 : 4, 2, th ? 64 : 8);
   for( size_t ci = 0; ci < shims.size(); ++ci )
@@ -71,6 +73,16 @@ void explore02(Options const& o, std::vector<Shim*> const& shims, std::vector<Sh
         });
       u64 n = static_cast<u64>(S.size()) * S.size(); rec.add_states(n, n + n/4, n + n/4);
       rec.count("branch.ff.raw_product_fits_int64", brs[0]); rec.count("branch.ff.between", brs[1]); rec.count("branch.ff.out_of_range", brs[2]);
+      }
+    // ---- digit-pattern words D^2 (corners of limb-wise multiplication: carries, cross terms)
+    for( int op : { B_MUL, B_MULEQ } )
+      {
+      parallel_blocks(Dg.size(), o.threads, [&](size_t ia, int) {
+        LocalViol lv(rec); std::vector<i64> out(Dg.size());
+        s->fm_bin_row(op, Dg[ia], Dg.data(), Dg.size(), out.data());
+        for( size_t ib = 0; ib < Dg.size(); ++ib ) c.ff(s, op, Dg[ia], Dg[ib], out[ib], ob | (static_cast<u64>(0x40 | op) << 48) | (ia * Dg.size() + ib), lv);
+        });
+      u64 n = static_cast<u64>(Dg.size()) * Dg.size(); rec.add_states(n, n, n); rec.count("digit_pattern_pairs", n);
       }
     // ---- directed pairs: products at the boundaries of the three clauses, in-band sentinel collisions, aliasing, dense fraction windows
     {
@@ -195,6 +207,8 @@ void explore03(Options const& o, std::vector<Shim*> const& shims, std::vector<Sh
   rec.note("alphabet", "fixed/fixed: S^2, |S|=" + std::to_string(S.size()) + ", operators / and /=, every call under a SIGFPE/SIGSEGV/SIGABRT guard; fixed/n and fixed/=n: a in S' (|S'|=" + std::to_string(Sa.size())
            + ") x every value of the 8- and 16-bit types, S-shaped + boundary-window values of the 32/64-bit types");
   C03 c(rec);
+  std::vector<i64> Dg = D_set(th ? 2 : 1);
+  rec.note("alphabet.digit_patterns", "D^2, |D|=" + std::to_string(Dg.size()) + ": words whose 16-bit and 32-bit digits are drawn from {0,1,2,half-1,half,half+1,max-1,max,...}, both signs");
   std::vector<std::vector<u64>> tv(T_CODES);
   for( int t : INT_TYPES ) tv[t] = int_type_values(t, th ? 6 : 4, 2, th ? 64 : 8);
   for( size_t ci = 0; ci < shims.size(); ++ci )
@@ -223,6 +237,22 @@ void explore03(Options const& o, std::vector<Shim*> const& shims, std::vector<Sh
         });
       u64 n = static_cast<u64>(S.size()) * S.size(); rec.add_states(n, 2*n, 2*n);
       rec.count("branch.ff.zero_divisor", brs[0]); rec.count("branch.ff.dividend_below_2^31", brs[1]); rec.count("branch.ff.dividend_at_least_2^31", brs[2]);
+      }
+    // ---- digit-pattern words D^2 (corners of limb-wise division: quotient-digit estimates, add-back)
+    for( int op : { B_DIV, B_DIVEQ } )
+      {
+      parallel_blocks(Dg.size(), o.threads, [&](size_t ia, int) {
+        LocalViol lv(rec); std::vector<i64> out(Dg.size());
+        i64 a = Dg[ia];
+        int sig = guarded([&]{ s->fm_bin_row(op, a, Dg.data(), Dg.size(), out.data()); });
+        for( size_t ib = 0; ib < Dg.size(); ++ib )
+          {
+          i64 b = Dg[ib]; u64 ord = ob | (static_cast<u64>(0x40 | op) << 48) | (ia * Dg.size() + ib);
+          if( sig ) { i64 g = 0; int sg = guarded([&]{ g = s->fm_bin(op, a, b); }); if( sg ) c.trap(s, "operator / (fixed,fixed)", "digit patterns", a, "b", to_s(b), sg, "ff", {to_s(op), to_s(a), to_s(b)}, ord, lv); else c.ff(s, op, a, b, g, ord, lv); }
+          else c.ff(s, op, a, b, out[ib], ord, lv);
+          }
+        });
+      u64 n = static_cast<u64>(Dg.size()) * Dg.size(); rec.add_states(n, n, n); rec.count("digit_pattern_pairs", n);
       }
     // ---- x /= x with the same object on both sides
     {
@@ -301,6 +331,30 @@ void replay03(Options const& o, Shim* s, Recorder& rec)
     if( sg ) c.trap(s, "operator / scalar", TN[t], a, "n", int_s(t, n), sg, o.rcase, o.rin, 0, d); else c.scalar(s, t, ord, a, n, static_cast<i64>(g), 0, d); }
   rec.add_states(1,1,1);
   }
+bool judge02(Shim* s, Recorder& rec, std::string const& kind, std::vector<u64> const& a, u64 value, u64 idx)
+  {
+  C02 c(rec); DirectViol d{rec};
+  if( kind == "bin" && a.size() == 3 && (a[0] == B_MUL || a[0] == B_MULEQ) )
+    { i64 x = static_cast<i64>(a[1]), y = static_cast<i64>(a[2]); if( fx_finite(x) && fx_finite(y) ) c.ff(s, static_cast<int>(a[0]), x, y, static_cast<i64>(value), idx, d); return true; }
+  if( kind == "un" && a.size() == 2 && a[0] == U_MULEQ_SELF )
+    { i64 x = static_cast<i64>(a[1]); if( fx_finite(x) ) c.ff(s, B_MULEQ, x, x, static_cast<i64>(value), idx, d); return true; }
+  if( kind == "mixed" && a.size() == 5 && a[0] == M_MUL && is_int_type(static_cast<int>(a[1])) )
+    { i64 x = static_cast<i64>(a[3]); if( fx_finite(x) ) c.scalar(s, static_cast<int>(a[1]), static_cast<int>(a[2]), x, a[4], static_cast<i64>(value), idx, d); return true; }
+  return false;
+  }
+bool judge03(Shim* s, Recorder& rec, std::string const& kind, std::vector<u64> const& a, u64 value, u64 idx)
+  {
+  C03 c(rec); DirectViol d{rec};
+  if( kind == "bin" && a.size() == 3 && (a[0] == B_DIV || a[0] == B_DIVEQ) )
+    { i64 x = static_cast<i64>(a[1]), y = static_cast<i64>(a[2]); if( fx_finite(x) && fx_finite(y) ) c.ff(s, static_cast<int>(a[0]), x, y, static_cast<i64>(value), idx, d); return true; }
+  if( kind == "un" && a.size() == 2 && a[0] == U_DIVEQ_SELF )
+    { i64 x = static_cast<i64>(a[1]); if( fx_finite(x) ) c.ff(s, B_DIVEQ, x, x, static_cast<i64>(value), idx, d); return true; }
+  if( kind == "mixed" && a.size() == 5 && a[0] == M_DIV && is_int_type(static_cast<int>(a[1])) && (a[2] == O_FIX_T || a[2] == O_ASSIGN) )
+    { i64 x = static_cast<i64>(a[3]); if( fx_finite(x) ) c.scalar(s, static_cast<int>(a[1]), static_cast<int>(a[2]), x, a[4], static_cast<i64>(value), idx, d); return true; }
+  return false;
+  }
 }
 REGISTER_PROPERTY(C02, explore02, replay02)
+REGISTER_JUDGE(C02, judge02)
+REGISTER_JUDGE(C03, judge03)
 REGISTER_PROPERTY(C03, explore03, replay03)
